@@ -3,7 +3,7 @@
    serving code where the arithmetic, the indexing and the `unwrap`s live; its
    header lists the functions.  `str::parse::<IpAddr>` / `<Ipv4Addr>` are
    universally quantified ([ipp], [ip4p]). *)
-From Erbium Require Import Lib.Base Model.ConfigAst Proofs.ConfigAst.
+From Erbium Require Import Lib.Base Model.ConfigAst Model.ConfigLoad Proofs.ConfigAst Proofs.ConfigLoad.
 From Coq Require Import String.
 
 (* ---- "the loader returns either a configuration or a descriptive error; it
@@ -98,23 +98,20 @@ Check C19_subnet_expansion_total : forall base len : N,
 Print Assumptions C19_subnet_expansion_total.
 
 Example C19_subnet_nonvacuous :
-  apply_subnet_range 3221225984 24 = Ok (Some (3221225985, 3221226237))      (* 192.0.2.0/24: .1 .. .253 *)
+  apply_subnet_range 3221225984 24 = Ok (Some (3221225985, 3221226238))      (* 192.0.2.0/24: .1 .. .254 *)
   /\ apply_subnet_range 3221225984 32 = Ok None /\ apply_subnet_range 3221225984 31 = Ok None
   /\ apply_subnet_range 0 0 = Err E_toolarge.
 Proof. vm_compute. repeat split. Qed.
 
 (* every modelled fragment parser together (addresses, acls, dns-routes,
    pref64, prefixes entries, apply-subnet, match-subnet, route prefixes) *)
-Theorem C19_loader_total_partial : forall (ipp : list N -> option ip) (ip4p : list N -> option N)
+Theorem C19_fragments_total : forall (ipp : list N -> option ip) (ip4p : list N -> option N)
   (f : fragments) (k : panic_kind), load_fragments ipp ip4p f <> Panic k.
 Proof. exact load_fragments_total. Qed.
-Check C19_loader_total_partial : forall (ipp : list N -> option ip) (ip4p : list N -> option N)
+Check C19_fragments_total : forall (ipp : list N -> option ip) (ip4p : list N -> option N)
   (f : fragments) (k : panic_kind), load_fragments ipp ip4p f <> Panic k.
-Print Assumptions C19_loader_total_partial.
-(* Full statement (DESIGN.md): forall ast, load ast <> Panic, for a model of the
-   WHOLE loader.  Proved here for the fragment parsers listed above; the rest
-   of the loader (option tables, listeners, hardware addresses, policy trees)
-   is covered only by the no-panic oracle of the correspondence check. *)
+Print Assumptions C19_fragments_total.
+(* (the fragment parsers alone; the whole loader is C19_loader_total below) *)
 
 (* ---- "a configuration the loader accepts never makes a request handler
         panic, overflow ..." ------------------------------------------------ *)
@@ -192,4 +189,103 @@ Example C19_rejected_nonvacuous :
   /\ ra_prefix ipp (YHash [(YString (codes "on-link"), YBoolean true)]) = Err E_missing
   /\ pref64 ipp (YHash [(YString (codes "prefix"), YString [58;58;47;50;52])]) = Err E_pref64
   /\ parse_string (YArray []) = Err E_type.
+Proof. vm_compute. repeat split. Qed.
+
+(* ---- the whole loader (Model/ConfigLoad.v) ------------------------------------
+   [load ipp ip4p sock fuel ndocs y]: everything config::load_config_from_string
+   does once yaml-rust has produced [ndocs] documents of which [y] is the first:
+   the top-level key dispatch, dhcp-policies (recursive policy tree, option
+   table, routes, ranges), router-advertisements (interfaces, prefixes, rdnss,
+   dnssl, pref64, interval checks), dns-routes, acls, listeners -- the header of
+   Model/ConfigLoad.v lists the Rust functions.  Universally quantified
+   (external code): [ipp] = str_ip, [ip4p] = str::parse::<Ipv4Addr>, [sock] =
+   "str_sockaddr accepts"; [fuel] bounds the nesting of `policies:` (too little
+   fuel is an error value, never a panic). *)
+Theorem C19_loader_total : forall (ipp : list N -> option ip) (ip4p : list N -> option N)
+  (sock : list N -> bool) (fuel : nat) (ndocs : N) (y : yaml) (k : panic_kind),
+  load ipp ip4p sock fuel ndocs y <> Panic k.
+Proof. exact load_total. Qed.
+Check C19_loader_total : forall (ipp : list N -> option ip) (ip4p : list N -> option N)
+  (sock : list N -> bool) (fuel : nat) (ndocs : N) (y : yaml) (k : panic_kind),
+  load ipp ip4p sock fuel ndocs y <> Panic k.
+Print Assumptions C19_loader_total.
+
+Theorem C19_loaded_is_safe : forall (ipp : list N -> option ip) (ip4p : list N -> option N)
+  (sock : list N -> bool) (fuel : nat) (ndocs : N) (y : yaml) (t : top),
+  load ipp ip4p sock fuel ndocs y = Ok t -> cfg_safe (cfg_of_top t) = true.
+Proof. exact load_safe. Qed.
+Check C19_loaded_is_safe : forall (ipp : list N -> option ip) (ip4p : list N -> option N)
+  (sock : list N -> bool) (fuel : nat) (ndocs : N) (y : yaml) (t : top),
+  load ipp ip4p sock fuel ndocs y = Ok t -> cfg_safe (cfg_of_top t) = true.
+Print Assumptions C19_loaded_is_safe.
+
+Corollary C19_loaded_serving_never_panics : forall (ipp : list N -> option ip) (ip4p : list N -> option N)
+  (sock : list N -> bool) (fuel : nat) (ndocs : N) (y : yaml) (t : top) (clients : list ip),
+  load ipp ip4p sock fuel ndocs y = Ok t -> serve_no_panic (cfg_of_top t) clients = true.
+Proof. intros ipp ip4p sock fuel ndocs y t clients H. exact (serve_safe _ clients (load_safe ipp ip4p sock fuel ndocs y t H)). Qed.
+Check C19_loaded_serving_never_panics : forall (ipp : list N -> option ip) (ip4p : list N -> option N)
+  (sock : list N -> bool) (fuel : nat) (ndocs : N) (y : yaml) (t : top) (clients : list ip),
+  load ipp ip4p sock fuel ndocs y = Ok t -> serve_no_panic (cfg_of_top t) clients = true.
+Print Assumptions C19_loaded_serving_never_panics.
+
+(* the new fields: the RDNSS address lists and DNSSL search lists an accepted
+   document leaves (per interface and at the top level, which interfaces fall
+   back to) fit their options, so the option-length arithmetic of the
+   advertisement serialiser (`u8::try_from(1 + 2n).unwrap()`, `1 + (len / 8) as
+   u8`) does not panic *)
+Theorem C19_loaded_ra_options_fit : forall (ipp : list N -> option ip) (ip4p : list N -> option N)
+  (sock : list N -> bool) (fuel : nat) (ndocs : N) (y : yaml) (t : top),
+  load ipp ip4p sock fuel ndocs y = Ok t -> ra_lens_no_panic t = true.
+Proof. intros ipp ip4p sock fuel ndocs y t H. exact (fits_no_panic t (load_fits ipp ip4p sock fuel ndocs y t H)). Qed.
+Check C19_loaded_ra_options_fit : forall (ipp : list N -> option ip) (ip4p : list N -> option N)
+  (sock : list N -> bool) (fuel : nat) (ndocs : N) (y : yaml) (t : top),
+  load ipp ip4p sock fuel ndocs y = Ok t -> ra_lens_no_panic t = true.
+Print Assumptions C19_loaded_ra_options_fit.
+
+Example C19_ra_options_refuted_without_limits :
+  rdnss_optlen 128 = Panic UnwrapNone /\ dnssl_optlen 2033 = Panic Overflow /\ dnssl_optlen 2032 = Ok 255.
+Proof. vm_compute. repeat split. Qed.
+
+(* the interval cross-check (`3 * max`, u32 * Duration) cannot overflow because
+   the interval was range-checked when its key was read *)
+Theorem C19_interval_crosscheck_total : forall (i : iface) (k : panic_kind),
+  (match i_max i with Some s => s <= 1800 | None => True end) -> interval_crosscheck i <> Panic k.
+Proof. intros i k H. exact (interval_crosscheck_total i H k). Qed.
+Check C19_interval_crosscheck_total : forall (i : iface) (k : panic_kind),
+  (match i_max i with Some s => s <= 1800 | None => True end) -> interval_crosscheck i <> Panic k.
+Print Assumptions C19_interval_crosscheck_total.
+
+Definition ys (x : string) : yaml := YString (codes x).
+
+(* hypotheses are satisfiable: a document that loads (policy tree two levels
+   deep, an interface, a route, an ACL), and documents that are rejected *)
+Example C19_load_nonvacuous :
+  let ipp := fun s : list N =>
+    if list_eqb N.eqb s (codes "192.0.2.0") then Some (V4 3221225984)
+    else if list_eqb N.eqb s (codes "192.0.2.7") then Some (V4 3221225991)
+    else if list_eqb N.eqb s (codes "2001:db8::") then Some (V6 42540766411282592856903984951653826560) else None in
+  let ip4p := fun s : list N => if list_eqb N.eqb s (codes "192.0.2.0") then Some 3221225984 else None in
+  let sock := fun _ : list N => true in
+  let doc := YHash [
+    (ys "addresses", YArray [ys "192.0.2.0/24"; ys "2001:db8::/64"]);
+    (ys "dns-routes", YArray [YHash [(ys "domain-suffixes", YArray [ys ""]); (ys "dns-servers", YArray [ys "192.0.2.7"])]]);
+    (ys "acls", YArray [YHash [(ys "match-subnets", YArray [ys "192.0.2.0/24"]); (ys "apply-access", YArray [ys "http-ro"])]]);
+    (ys "router-advertisements", YHash [(ys "eth0", YHash [
+        (ys "max-router-advertisement-interval", YInteger 1800); (ys "min-router-advertisement-interval", ys "1350s");
+        (ys "prefixes", YArray [YHash [(ys "prefix", ys "2001:db8::/64")]]);
+        (ys "pref64", YHash [(ys "prefix", ys "2001:db8::/96"); (ys "lifetime", YInteger (-1))])])]);
+    (ys "dhcp-policies", YArray [YHash [
+        (ys "match-subnet", ys "192.0.2.0/24"); (ys "apply-subnet", ys "192.0.2.0/24"); (ys "apply-mtu", YInteger 1500);
+        (ys "policies", YArray [YHash [(ys "match-hardware-address", ys "00:00:5E:00:53:01"); (ys "apply-address", ys "192.0.2.7")]])]])] in
+  match load ipp ip4p sock 5 1 doc with
+  | Ok t => cfg_safe (cfg_of_top t) = true /\ c_routes (cfg_of_top t) = [(0, 1)] /\ c_pref64 (cfg_of_top t) = [96]
+            /\ c_subnets (cfg_of_top t) = [24] /\ lenN (c_acl (cfg_of_top t)) = 1
+  | _ => False
+  end
+  /\ load ipp ip4p sock 5 2 doc = Err E_docs
+  /\ load ipp ip4p sock 1 1 doc = Err E_fuel
+  /\ load ipp ip4p sock 5 1 (YHash [(ys "router-advertisements", YHash [(ys "eth0", YHash [
+        (ys "max-router-advertisement-interval", YInteger 600); (ys "min-router-advertisement-interval", YInteger (-1))])])]) = Err E_interval
+  /\ load ipp ip4p sock 5 1 (YHash [(ys "dhcp-policies", YArray [YHash [(ys "apply-mtu", YInteger 65536)]])]) = Err E_range
+  /\ load ipp ip4p sock 5 1 (YHash [(ys "nonsense", YNull)]) = Err E_key.
 Proof. vm_compute. repeat split. Qed.
